@@ -94,6 +94,28 @@ THEOREMS = {
     "C19_model_is_source_get_test_screen_from_job_output": "the whole helper (called by the translated retrospective step): it globs for training.screen.h5 = the model's has_training / SFile s KTraining",
     "C19_model_is_source_get_theta_and_dist_chunks": "the whole helper (called by both translated steps): ValueError unless thetas and distance chunks are both present = has_thetas_dist / AFail 2",
     "C19_model_is_source_get_selected_plates": "the whole helper (called by both translated steps): the contents of the selected_plate files of the iteration, None when there are none = selected_plates",
+    "C19_model_is_source_run_initial_plate": "the WHOLE builder run_initial_plate, re-translated on every run and CALLED by the translated run_next_retrospective_step: the command line it builds (list of words + extra args), read "
+                                             "the way main.nf reads it, is the launch LInit screen for job directory output_dir; a None screen is a TypeError before anything is started",
+    "C19_model_is_source_run_first_batch_plate": "the same for run_first_batch_plate: --training_screen gets training_screen, --test_screen gets test_screen, --initialize false = LFirst training test",
+    "C19_model_is_source_run_first_prospective_batch_plate": "the same for run_first_prospective_batch_plate: --mode prospective --screen S = LProsp S",
+    "C19_model_is_source_run_subsequent_batch_plate": "the same for run_subsequent_batch_plate (called by both translated steps): --mode next_plate --reveal true, --screen, the thetas / distance-matrix globs of one directory t, "
+                                                      "the optional --excludes word (none when excludes is None) = LNext S t excludes",
+    "C19_model_is_source_dir_sort_key": "the WHOLE function dir_sort_key (int(os.path.basename(x).split('_')[1])), re-translated on every run over path NAMES: on any path whose last component is "
+                                        "'<prefix>_<decimal numeral of i>' (prefix without '_') it returns i",
+    "C19_model_is_source_dir_sort_key_iter_index": "on the name '<out>/iter_<i>' of a globbed iteration directory (i >= 0) the translated dir_sort_key returns iter_index of its model value: the index primitive of examine's configuration",
+    "C19_model_is_source_dir_sort_key_plate_index": "the same for '<out>/iter_<i>/plate_<j>' and plate_index",
+    "C19_model_is_source_main": "the WHOLE function main(), re-translated on every run (mode dispatch: which translated run_next_* the variable run_next holds; `while True` as recursion on explicit fuel; "
+                                "every call runs the translated function in the world; `if not should_run_again: break`): for fuel >= the number of times the loop body is started it equals the model's "
+                                "invocation for every tree, schedule, batch size - same final tree, remaining schedule, calls and end (returned / exception out of main() / observation ends)",
+    "C19_model_is_source_main_unknown_mode": "a --mode other than the two argparse admits: ValueError before any call, the world is untouched",
+    "C19_model_is_source_main_observation_window": "fuel > number of schedule entries is always sufficient (one loop iteration per entry, plus the one that finds the schedule empty)",
+    "C19_model_is_source_main_fuel_discharged": "NO fuel hypothesis on reachable trees: from any tree a crash schedule leads to, for ANY further schedule, fuel = (retrospective) steps not yet completed + 1 / "
+                                                "(prospective) what is left of the current batch suffices: main() = invocation",
+    "C19_model_is_source_main_finishes_batch_and_stops": "C19_invocation_finishes_batch_and_stops said of the translated main() with fuel = batch size: it returns normally after exactly bs - c mod bs successful launches, the rest of the schedule untouched",
+    "C19_model_is_source_main_retro_stops_iff_finished": "C19_retro_invocation_stops_iff_finished said of the translated main() with fuel = n + 1, any schedule: a normal return means all n steps complete and only successful "
+                                                         "launches before the returning call; once complete, main() makes one call, changes nothing, returns",
+    "C19_model_is_source_main_call_is_attempt": "the meaning of one call in the world (world_call: the translated function on the current tree, played against the next schedule entry) is the model's attempt, and the value "
+                                                "handed back to main() is call_returns - so call_returns is derived from the value the translated function returns",
 }
 ASSUMPTIONS = [
     "no nextflow engine is available: the three workflows are represented by harness/fake_nextflow/nextflow, whose publications follow main.nf / the "
@@ -131,10 +153,32 @@ EXPLANATION = ("Model: Model/Orchestrate.v (calls: attempt/script_run; invocatio
                "glob 'plate_*/*/selected_plate' under an iteration = its recorded selections in plate order (glob order not modelled), len, l[0] (IndexError on []), open(path) / json.load / f.read().strip() = "
                "the value the file holds, the dict get_theta_and_dist_chunks returns = the directory it names.  run_next_*: os.path.splitext(os.path.basename(input_screen)) = an unmodelled name, "
                "meta['n_unobserved_plates'] = the metadata value, every read of the output directory = a read of the tree AFTER the actions done so far (tree_after); effects: shutil.rmtree(job dir) = ARmTree, "
-               "os.makedirs(job dir) = AMkIter then AMkPlate, run_initial_plate / run_first_batch_plate / run_first_prospective_batch_plate / run_subsequent_batch_plate = the launch of that command with those "
-               "arguments, or a TypeError when one of the path arguments is None (excludes=None = no --excludes); ignored: logger.info, os.makedirs(output_dir) (creation of the output directory itself is "
-               "not modelled); extra_args / experiment_name are only handed on.  NOT translated: the four run_* command builders, dir_sort_key, get_args and main() (main's while-loop is Orchestrate.invocation; "
-               "the differential runs drive the real main()).")
+               "os.makedirs(job dir) = AMkIter then AMkPlate; t['thetas'] / t['dist_chunks'] = the two glob patterns under the directory t that get_theta_and_dist_chunks answered; the calls run_initial_plate / "
+               "run_first_batch_plate / run_first_prospective_batch_plate / run_subsequent_batch_plate(keyword arguments) are calls of the TRANSLATED builders (each keyword's value coerced to the builder's parameter type); "
+               "ignored: logger.info, os.makedirs(output_dir) (creation of the output directory itself is not modelled); extra_args / experiment_name are only handed on.  "
+               "COMMAND BUILDERS (C19_model_is_source_run_*): the four run_* functions are re-translated as whole functions (configurations C19_RUN_* -> Generated/SrcOrchCmd.v; translator key added: list_elem_type - "
+               "every item of a list literal is coerced to one declared type, here `option word`) and proved to build exactly the command lines that denote LInit / LFirst / LProsp / LNext, so the launch primitive the "
+               "run_next_* links used to trust (launch_cmd) is now a theorem.  From the translation: the order and content of the words, `+ extra_args`, `if excludes is not None: args = args + [...]`, the logged join, "
+               "check_call.  TRUSTED primitives of the builders: a string literal = WLit of its code points (18 literals, generated by one helper); get_main_nf_file() = the pipeline's main.nf; os.path.join(output_dir, "
+               "'work') = the job's work directory; a screen path / output_dir / experiment_name / a glob pattern used as a list item = the word of that value (None stays None); extra_args = opaque words that are "
+               "none of the script's own options; '--excludes={}'.format(','.join(ids)) = the word WExcludes ids; ' '.join(cmd) in the logged f-string = TypeError iff an item is None; subprocess.check_call(cmd, cwd=repository "
+               "root) = TypeError iff an item is None, otherwise the process is started and what it is is Orchestrate.launch_of_words: `nextflow run main.nf` + options, an option's value = the word after the first "
+               "occurrence of its key, params.mode / params.initialize select the workflow and its screen options as main.nf and workflows/.../retrospective_simulation/main.nf do, --outdir names the job directory, "
+               "--reveal true, thetas and distance-matrix globs under ONE directory, --excludes; anything else is no launch of the model (nextflow error).  -work-dir, --name and the extra words are not interpreted.  MAIN (C19_model_is_source_main*): main() is re-translated as a whole function (configuration C19_MAIN -> Generated/SrcOrchMain.v, exception monad Orchestrate.mres whose "
+               "errors carry the world main() leaves behind; translator keys added: monad['while'] - a `while True` under a non-default monad, on explicit fuel -, tail_dup_raise - the statements after an `if` one of whose "
+               "branches may raise are the tail of both branches) and proved equal to Orchestrate.invocation for sufficient fuel; the fuel hypothesis is discharged on reachable trees (n + 1 resp. batch-size "
+               "iterations).  The if/elif/else on args.mode, the assignment of run_next, the loop, the call's keyword arguments (typed: output directory, screen, extra args, batch size), the negated test and the break come from "
+               "the translation.  TRUSTED primitives of main(): get_args() = the parsed arguments (argv, extra) [get_args itself is not translated; argparse's choices = the two mode strings]; args.mode / args.batch_size = "
+               "fields of argv; the literals 'retrospective' / 'prospective' = the two mode names; the NAMES run_next_retrospective_step / run_next_prospective_step = the translated functions of that name; "
+               "os.path.abspath(args.outdir) = THE output directory of the world, os.path.abspath(args.screen) = the operator's screen of this invocation (SInput); and world_call = what a call "
+               "run_next(output_dir=, input_screen=, extra_args=, batch_size=) is in a world with crashes: the translated function is applied to the tree as it is now, its result (value + actions / exception after "
+               "some actions / named directory) is played against the next crash-schedule entry by the rule of Orchestrate.attempt (exec_result; C19_model_is_source_main_call_is_attempt proves it IS attempt), the "
+               "value reaches main() only if the call ran to its return, an empty schedule ends the observation.  "
+               "DIR_SORT_KEY (C19_model_is_source_dir_sort_key*): translated over path NAMES (a path = the list of its components, a component = its code points) with the primitives os.path.basename = last "
+               "component, s.split('_') = the pieces between underscores, l[1] = second piece or IndexError, int(s) = the value of an unsigned ASCII decimal numeral (anything else: ValueError - Python's int also accepts a sign, "
+               "surrounding white space and non-ASCII digits, which the model does not represent); proved to return i on '.../<prefix>_<numeral of i>', i.e. the index primitives iter_index / plate_index that examine's "
+               "configuration gives to dir_sort_key(x) on the model value of 'iter_<i>' / 'plate_<j>' (i, j >= 0; a directory named e.g. iter_-1 or iter_1_old is outside the model).  examine itself still uses the index primitive "
+               "(its paths are model values, not names).  NOT translated: get_args, the path helpers get_main_nf_file / get_repository_root / get_script_location / get_nextflow_dir / get_base_config.")
 
 KINDS = ["training", "test", "thetas", "dist", "selected", "advanced", "meta"]
 FILES = ["training.screen.h5", "test.screen.h5", "thetas_0.h5", "distance_matrix_chunk_0.h5", "selected_plate",
